@@ -184,10 +184,14 @@ static DecOracle dec_oracle(const Bytes &z) {
 }
 
 // one decompression run of `z` in a random configuration; fileop: 0 stdin->stdout, 1 FILE operand
-static RunCfg dec_cfg_for(Rng &rng, const Bytes &z, size_t out_hint, bool allow_operand) {
+static RunCfg dec_cfg_for(Rng &rng, const Bytes &z, size_t out_hint, bool allow_operand, bool cleanup_fault = false) {
   RunCfg r = decompress_cfg(rng, random_workers(rng), true, z.size(), out_hint + 1);
   if (allow_operand && rng.below(5) == 0) {
     if (rng.below(3) == 0) r.argv.push_back("g.bz2");     // the input under test is the SECOND operand of the invocation: state left behind by a successful first one must not matter (seeded change C05-3)
+    else if (cleanup_fault && rng.below(3) == 0) {     // (C07 only: the input is invalid, so the first unlink is the one in cleanup()) the removal of the partial output inside cleanup() fails (read-only directory, file gone): lbzip2 must still end with status 1 (seeded change C07-4)
+      sim::Fault ft; ft.call = sim::C_UNLINK; ft.role = sim::R_ANY; ft.k = 0; ft.err = rng.below(2) ? EACCES : ENOENT;
+      r.faults.push_back(ft);
+    }
     r.argv.push_back("f.bz2");
   }
   return r;
@@ -370,7 +374,7 @@ struct C07 : Driver {
     } else {
       c.data = gen_dec_input(rng, tier, 1, &c.data_desc);
       size_t hint = c.data.size() * 20 + 1000;
-      for (int k = 0; k < 2; k++) c.runs.push_back(dec_cfg_for(rng, c.data, hint, true));
+      for (int k = 0; k < 2; k++) c.runs.push_back(dec_cfg_for(rng, c.data, hint, true, true));
     }
     return c;
   }
@@ -380,7 +384,9 @@ static Verdict judge_invalid(const DecRun &x, const RunCfg &cfg, const std::stri
   if (x.r.kind != sim::X_EXIT) return Verdict::fail("died", "invalid input (" + reason + ") ended with " + x.r.describe() + "; " + cfg.brief());
   if (x.r.code != 1) return Verdict::fail(x.r.code == 0 ? "accepted-invalid" : "wrong-status", "invalid input (" + reason + ") ended with exit status " + std::to_string(x.r.code) + " instead of 1; " + cfg.brief(), x.r.code == 0 ? "accepted-invalid:" + reason : "wrong-status");
   if (x.r.err.empty()) return Verdict::fail("no-diagnostic", "invalid input (" + reason + ") rejected without a diagnostic on stderr; " + cfg.brief());
-  if (x.operand && x.out_file_exists) return Verdict::fail("output-left-behind", "invalid FILE operand (" + reason + "): output file f remains after exit 1; " + cfg.brief());
+  bool unlink_failed = false;
+  for (auto &ft : x.r.faults) if (ft.fired && ft.call == sim::C_UNLINK) unlink_failed = true;
+  if (x.operand && x.out_file_exists && !unlink_failed) return Verdict::fail("output-left-behind", "invalid FILE operand (" + reason + "): output file f remains after exit 1; " + cfg.brief());
   if (x.operand && !x.in_file_intact) return Verdict::fail("input-lost", "invalid FILE operand (" + reason + "): the input file is gone or changed; " + cfg.brief());
   return Verdict();
 }
